@@ -3,11 +3,11 @@
 Only the property text and the scratch worktree are given (nothing from /verif)."""
 import json, sys
 pid = sys.argv[1]
-round2 = len(sys.argv) > 2 and sys.argv[2] in ("2", "3")
-round3 = len(sys.argv) > 2 and sys.argv[2] == "3"
+round2 = len(sys.argv) > 2 and sys.argv[2] in ("2", "3", "4")
+round3 = len(sys.argv) > 2 and sys.argv[2] in ("3", "4")
 p = [json.loads(l) for l in open('/verif/properties.jsonl') if json.loads(l)['id'] == pid][0]
-wt = f"/tmp/seed3_{pid}" if (len(sys.argv) > 2 and sys.argv[2] == "3") else f"/tmp/seed_{pid}"
-out = "/tmp/seed3_out" if (len(sys.argv) > 2 and sys.argv[2] == "3") else "/tmp/seed_out"
+wt = f"/tmp/seed{sys.argv[2]}_{pid}" if (len(sys.argv) > 2 and sys.argv[2] in ("3", "4")) else f"/tmp/seed_{pid}"
+out = f"/tmp/seed{sys.argv[2]}_out" if (len(sys.argv) > 2 and sys.argv[2] in ("3", "4")) else "/tmp/seed_out"
 tried = json.load(open("/root/work/tried.json")).get(pid, []) if round2 and __import__("os").path.exists("/root/work/tried.json") else []
 print(f"""You are testing how robust a Python library's guarantees are. The library is GemClus (scikit-learn-compatible discriminative clustering); a git worktree of it is at {wt} (work ONLY there; never touch /repo or /verif or any other directory except {wt} and {out}/{pid}). Run Python as `cd {wt} && /venv/bin/python ...` (the current directory comes first on sys.path, so `import gemclus` imports the worktree's copy). There is no network and nothing can be installed; there is no Cython, so changes to `gemclus/tree/_utils.pyx` have NO effect (the compiled .so in the worktree is what runs): change only .py files.
 
